@@ -26,7 +26,10 @@ ASSUMPTIONS = ["configurations avoid the one ambiguity of the statement: an appl
                "hop-by-hop uniqueness is judged per connection (the statement's quantifier)"]
 TIMEOUT = {"quick": 900, "thorough": 3600}
 SCTP_CLONES = {"quick": ['rand13'], "thorough": ['rand14', 'rand15']}
-STATES = ["none", "connected", "ready", "waiting_dwa", "disconnecting", "closed"]
+STATES = ["none", "connected", "ready", "waiting_dwa", "disconnecting", "closed",
+          # two connections of the peer complete the exchange; then the first one (the one the node has been using)
+          # gets a DPR / is closed: the peer still has a ready connection
+          "two_conns_first_dpr", "two_conns_first_closed", "two_conns_second_closed"]
 PLANS = ["prompt", "late", "dup", "unknown", "wrong_e2e", "wrong_hbh", "never"]
 CALLBACKS = ["default", "first", "last", "seeded"]
 R1, R2 = "verif.example", "other.example"
@@ -87,6 +90,7 @@ class Case:
         self.h = self.w.h
         self.node = self.w.node
         self.conn = {}       # peer name -> ScriptedPeer
+        self.extra = {}      # peer name -> the other ScriptedPeer of a peer with two connections
         self.offered = []    # callback log
         self.judged = 0
 
@@ -112,6 +116,9 @@ class Case:
         c = self.h.conn_of(p)
         from diameter.node.peer import PEER_READY_STATES
         peer = self.node.peers[name]
+        if name in self.extra:
+            # the peer holds (or held) two connections: it is ready iff the surviving one is
+            return c is not None and c.state in PEER_READY_STATES
         return c is not None and c.state in PEER_READY_STATES and peer.connection is c
 
     def setup(self):
@@ -153,6 +160,17 @@ class Case:
             sp.send(M.cer(p["name"], p["realm"], auth=auth or [4], acct=acct, hbh=1, e2e=1))
             h.settle()
             sp.drain()
+            if st.startswith("two_conns"):
+                sp2 = h.inbound(ip=f"10.1.0.{i + 1}", port=51000 + i)
+                h.settle()
+                sp2.send(M.cer(p["name"], p["realm"], auth=auth or [4], acct=acct, hbh=1, e2e=2))
+                h.settle()
+                sp2.drain()
+                if st == "two_conns_second_closed":
+                    self.extra[p["name"]] = sp2
+                else:
+                    self.extra[p["name"]] = sp
+                    self.conn[p["name"]] = sp2     # the connection that remains
         if "waiting_dwa" in self.cfg["states"]:
             h.advance(6)
             h.settle()
@@ -162,6 +180,10 @@ class Case:
                 sp.send(M.dpr(p["name"], p["realm"], hbh=2, e2e=2))
             elif st == "closed":
                 sp.close()
+            elif st == "two_conns_first_dpr":
+                self.extra[p["name"]].send(M.dpr(p["name"], p["realm"], hbh=2, e2e=2))
+            elif st in ("two_conns_first_closed", "two_conns_second_closed"):
+                self.extra[p["name"]].close()
         h.settle()
         for sp in self.conn.values():
             sp.drain()
@@ -202,6 +224,12 @@ class Case:
                         where.setdefault(sess, []).append((n, f))
                         outstanding.setdefault(n, []).append(f.h.hbh)
                 seen[n] = len(sp.frames)
+            for n, sp in self.extra.items():
+                sp.drain()
+                stray = [f for f in sp.frames if f.is_request and f.h.code == 272]
+                if stray:
+                    self.witness("request.sent_on_closed_or_disconnecting_connection_of_peer",
+                                 {"peer": n, "frames": [repr(f) for f in stray[:2]]})
             for n, hs in outstanding.items():
                 if 0 in hs:
                     self.witness("request.hop_by_hop_zero", {"peer": n})
